@@ -266,7 +266,7 @@ func (c *Ctx) Units(phase string, n int, fn func(u int)) {
 			os.MkdirAll(filepath.Dir(out), 0o755)
 			os.Remove(out)
 			cmd := exec.Command(exe, "-prop", c.Prop, "-tier", c.Tier, "-worker", fmt.Sprintf("%s:%d:%d", phase, i, w), "-out", out)
-			cmd.Env = append(os.Environ(), "GOMAXPROCS=2", "VERIF_DEADLINE_UNIX="+strconv.FormatInt(c.Deadline.Unix(), 10))
+			cmd.Env = append(os.Environ(), "GOMAXPROCS=1", "VERIF_DEADLINE_UNIX="+strconv.FormatInt(c.Deadline.Unix(), 10))
 			cmd.Stderr = os.Stderr
 			err := cmd.Run()
 			b, rerr := os.ReadFile(out)
